@@ -5,13 +5,18 @@ go 1.26.1
 require (
 	github.com/anishathalye/porcupine v1.3.0
 	github.com/avast/retry-go/v4 v4.7.0
+	github.com/mholt/acmez/v3 v3.1.6
+	github.com/miekg/dns v1.1.72
 	github.com/stretchr/testify v1.11.1
+	github.com/twitchtv/twirp v8.1.3+incompatible
 	go.miragespace.co/specter v0.0.0
 	go.uber.org/zap v1.27.1
 )
 
 require (
 	github.com/TheZeroSlave/zapsentry v1.23.0 // indirect
+	github.com/Yiling-J/theine-go v0.6.3-0.20250918135241-1be01cecc132 // indirect
+	github.com/alecthomas/units v0.0.0-20240927000941-0f3dac36c52b // indirect
 	github.com/caddyserver/certmagic v0.25.2 // indirect
 	github.com/caddyserver/zerossl v0.1.5 // indirect
 	github.com/cpuguy83/go-md2man/v2 v2.0.7 // indirect
@@ -20,23 +25,32 @@ require (
 	github.com/fatih/color v1.18.0 // indirect
 	github.com/getsentry/sentry-go v0.43.0 // indirect
 	github.com/go-chi/chi/v5 v5.2.5 // indirect
+	github.com/go-chi/httprate v0.15.0 // indirect
 	github.com/jedib0t/go-pretty/v6 v6.7.8 // indirect
 	github.com/klauspost/cpuid/v2 v2.3.0 // indirect
 	github.com/libdns/libdns v1.1.1 // indirect
 	github.com/libp2p/go-buffer-pool v0.1.0 // indirect
+	github.com/libp2p/go-yamux/v4 v4.0.2 // indirect
 	github.com/mattn/go-colorable v0.1.13 // indirect
 	github.com/mattn/go-isatty v0.0.20 // indirect
 	github.com/mattn/go-runewidth v0.0.16 // indirect
-	github.com/mholt/acmez/v3 v3.1.6 // indirect
-	github.com/miekg/dns v1.1.72 // indirect
+	github.com/montanaflynn/stats v0.7.1 // indirect
+	github.com/ncruces/go-sqlite3 v0.30.5 // indirect
+	github.com/ncruces/julianday v1.0.0 // indirect
 	github.com/planetscale/vtprotobuf v0.6.0 // indirect
 	github.com/pmezard/go-difflib v1.0.0 // indirect
 	github.com/quic-go/qpack v0.6.0 // indirect
 	github.com/quic-go/quic-go v0.59.0 // indirect
 	github.com/rivo/uniseg v0.4.7 // indirect
 	github.com/russross/blackfriday/v2 v2.1.0 // indirect
+	github.com/sethvargo/go-diceware v0.5.0 // indirect
 	github.com/stretchr/objx v0.5.2 // indirect
-	github.com/twitchtv/twirp v8.1.3+incompatible // indirect
+	github.com/tetratelabs/wazero v1.11.0 // indirect
+	github.com/tidwall/gjson v1.18.0 // indirect
+	github.com/tidwall/match v1.1.1 // indirect
+	github.com/tidwall/pretty v1.2.1 // indirect
+	github.com/tidwall/tinylru v1.2.1 // indirect
+	github.com/tidwall/wal v1.2.1 // indirect
 	github.com/urfave/cli/v2 v2.27.7 // indirect
 	github.com/xrash/smetrics v0.0.0-20240521201337-686a1a2994c1 // indirect
 	github.com/zeebo/blake3 v0.2.4 // indirect
@@ -55,6 +69,7 @@ require (
 	golang.org/x/text v0.34.0 // indirect
 	google.golang.org/protobuf v1.36.11 // indirect
 	gopkg.in/yaml.v3 v3.0.1 // indirect
+	moul.io/zapfilter v1.7.0 // indirect
 )
 
 replace go.miragespace.co/specter => /repo
